@@ -256,6 +256,66 @@ def c05_support(kw):
 
 
 @with_signature(SPEC)
+def c05_ages(kw):
+    """node-age summaries on a summarised target (rooted, exactly ultrametric inputs; ages concrete per path: the
+    summaries call sqrt).  Input ages: node height in edges times a per-tree scale chosen symbolically."""
+    k, npool = kw["k"], kw["npool"]
+    tns = dendropy.TaxonNamespace(TAXA)
+    trees = []
+    for i in range(k):
+        nw = POOL[choose(kw["t%d" % i], npool)]
+        parents = SHAPES[nw][0]
+        n = len(parents) + 1
+        sc = [1, 2, 4.5][choose(kw["len%d_1" % i], 3)]
+        height = [0] * n
+        for j in range(n - 1, 0, -1):
+            p = parents[j - 1]
+            height[p] = max(height[p], height[j] + 1)
+        lengths = [None] + [sc * (height[parents[j - 1]] - height[j]) for j in range(1, n)]
+        t, _ = make_tree(nw, tns, True, lengths)
+        trees.append(t)
+    ta = dendropy.TreeArray(taxon_namespace=tns, is_rooted_trees=True, ignore_node_ages=False)
+    ta.add_trees(trees)
+    target, tnodes = make_tree(POOL[choose(kw["target"], npool)], tns, True)
+    mode = [None, "mean-age", "median-age"][choose(kw["lm"], 3)]
+    ta.summarize_splits_on_tree(target, set_edge_lengths=mode)
+    wf = tg.wellformed(target)
+    if wf is not None:
+        return wf
+    ages = {}
+    for t in trees:
+        nds = tg.reachable(t)
+        depth = max(tg.root_distance(nd) for nd in nds if not nd._child_nodes)
+        for nd in nds:
+            ages.setdefault(tg.leafset(nd), []).append(depth - tg.root_distance(nd))
+    for nd in tg.reachable(target):
+        vals = sorted(ages.get(tg.leafset(nd), []))
+        if not vals:
+            continue
+        n = len(vals)
+        mean = sum(vals) / float(n)
+        med = vals[n // 2] if n % 2 else (vals[n // 2 - 1] + vals[n // 2]) / 2.0
+        if not close(nd.age_mean, mean, 10):
+            return "node-age-mean-wrong"
+        if not close(nd.age_median, med, 10):
+            return "node-age-median-wrong"
+        if not (close(nd.age_range[0], vals[0], 10) and close(nd.age_range[1], vals[-1], 10)):
+            return "node-age-range-wrong"
+        if n > 1:
+            sdv = math.sqrt(sum((v - mean) ** 2 for v in vals) / (n - 1))
+            if not close(nd.age_sd, sdv, 10):
+                return "node-age-sd-wrong"
+        if mode is not None:
+            exp = mean if mode == "mean-age" else med
+            if not close(nd.age, exp, 10):
+                return "node-age-not-set-to-summary"
+            par = nd._parent_node
+            if par is not None and par.age >= nd.age and not close(nd._edge.length, par.age - nd.age, 10):
+                return "edge-length-not-age-difference"
+    return True
+
+
+@with_signature(SPEC)
 def c05_collapse(kw):
     tns, trees, weights, rooted, use_w = build_inputs(kw)
     tl = dendropy.TreeList(trees, taxon_namespace=tns)
@@ -333,7 +393,7 @@ def harnesses(tier):
     q = tier == "quick"
     ks = (1, 2, 3) if q else (1, 2, 3, 4)
     common = dict(assumptions=["input trees span exactly the four taxa of the namespace", "weights are symbolic integers in [1,50] (c05_support/c05_mcct: concrete per path - sqrt/log are C functions)"],
-                  outside=["HPD and quantile summaries", "node-age summaries", "float rounding (tolerance 1e-9)", "more than 4 taxa"], classify=classify)
+                  outside=["HPD and quantile summaries", "float rounding (tolerance 1e-9)", "more than 4 taxa"], classify=classify)
 
     npool = 6 if q else len(POOL)
 
@@ -366,6 +426,10 @@ def harnesses(tier):
                       bounds=dict(trees="1..%d trees, edge lengths a fixed pattern scaled by a symbolic choice of 1/2/4.5 per tree; weights 1" % (2 if q else 3), target="symbolic choice of target tree", options="percentages, support as label, history (summarise, grow, summarise)"),
                       functions=["TreeArray.summarize_splits_on_tree", "SplitDistributionSummarizer.summarize_splits_on_tree", "SplitDistribution.calc_split_edge_length_summaries", "statistics.summarize"],
                       cost=3.0, **common))
+    hs.append(Harness("c05_ages", "C05", c05_ages, [dict(k=k, mode="ages", npool=npool, target=tg_, t0=t0) for k in ((1, 2) if q else (1, 2, 3)) for tg_ in range(npool) for t0 in range(npool)],
+                      bounds=dict(trees="1..%d rooted, exactly ultrametric trees: node age = height in edges x a per-tree scale chosen symbolically from 1/2/4.5" % (2 if q else 3), target="symbolic choice of target tree", options="set_edge_lengths None / mean-age / median-age (symbolic)"),
+                      functions=["SplitDistribution.count_splits_on_tree (node ages)", "Tree.calc_node_ages", "SplitDistribution.calc_split_node_age_summaries", "SplitDistributionSummarizer.summarize_splits_on_tree", "Tree.set_edge_lengths_from_node_ages"],
+                      cost=2.0, **dict(common, outside=["HPD and quantile summaries", "float rounding (tolerance 1e-9)", "more than 4 taxa", "node ages of non-ultrametric inputs"])))
     hs.append(Harness("c05_mcct", "C05", c05_mcct, [dict(k=k, mode="mcct", use_w=False, npool=npool, t0=t0) for k in ((2, 3) if q else (2, 3, 4)) for t0 in range(npool)],
                       bounds=dict(trees="2..%d trees, weights 1" % (3 if q else 4), metric="sum of support / log product (symbolic)"),
                       functions=["TreeArray.calculate_sum_of_split_supports", "calculate_log_product_of_split_supports", "maximum_sum_of_split_support_tree", "maximum_product_of_split_support_tree", "restore_tree"],
